@@ -155,6 +155,12 @@ func (c *fileCtx) passA() {
 								yield(s)
 							} else if id, ok := se.X.(*ast.Ident); ok && id.Name == "atomic" {
 								yield(s)
+								// and after it: the window between an atomic update and the
+								// next (possibly plain) access of the same variable
+								k++
+								site := fmt.Sprintf("%s:%s#%d", c.name, fn, k)
+								eds = append(eds, edit{c.off(s.End()), c.off(s.End()), fmt.Sprintf("; verifYield(%q)", site)})
+								c.stats["yield"]++
 							}
 						}
 					}
